@@ -265,18 +265,26 @@ template <class K> struct FSpec {
     bool accept_all;
 };
 
+// Filters are PREPARED: built from a string that lives on but is overwritten right after the filter object was made (a filter
+// owns its key; a program may reuse the variable it built the filter from).
+static std::deque<std::string> g_key_scratch;
+static std::deque<std::vector<std::string>> g_keys_scratch;
+static const std::string &scratch_key(const std::string &k) { g_key_scratch.push_back(k); if (g_key_scratch.size() > 4096) g_key_scratch.pop_front(); return g_key_scratch.back(); }
+static void spoil_key() { std::string &k = g_key_scratch.back(); for (char &c : k) c = '#'; k += "-spoiled"; }
+
 template <class K> static std::vector<FSpec<K>> make_filters(const Model &m, bool full) {
     typedef typename K::Node N;
     std::vector<FSpec<K>> fs;
     { FSpec<K> f; f.kind = "AcceptAll"; f.desc = "AcceptAll"; f.accept_all = true; f.pred = [](const Model &, int) { return true; }; f.lib = util::AcceptAll<N>(); fs.push_back(f); }
     auto by_name = [&](const std::string &n) { FSpec<K> f; f.kind = "NameFilter"; f.desc = "NameFilter(" + n + ")"; f.accept_all = false;
-        f.pred = [n](const Model &mm, int v) { return mm.name[v] == n; }; f.lib = util::NameFilter<N>(n); fs.push_back(f); };
+        f.pred = [n](const Model &mm, int v) { return mm.name[v] == n; }; f.lib = util::NameFilter<N>(scratch_key(n)); spoil_key(); fs.push_back(f); };
     auto by_type = [&](const std::string &t) { FSpec<K> f; f.kind = "TypeFilter"; f.desc = "TypeFilter(" + t + ")"; f.accept_all = false;
-        f.pred = [t](const Model &mm, int v) { return mm.type[v] == t; }; f.lib = util::TypeFilter<N>(t); fs.push_back(f); };
+        f.pred = [t](const Model &mm, int v) { return mm.type[v] == t; }; f.lib = util::TypeFilter<N>(scratch_key(t)); spoil_key(); fs.push_back(f); };
     auto by_id = [&](const std::string &i, const std::string &d) { FSpec<K> f; f.kind = "IdFilter"; f.desc = "IdFilter(" + d + ")"; f.accept_all = false;
-        f.pred = [i](const Model &mm, int v) { return mm.id[v] == i; }; f.lib = util::IdFilter<N>(i); fs.push_back(f); };
+        f.pred = [i](const Model &mm, int v) { return mm.id[v] == i; }; f.lib = util::IdFilter<N>(scratch_key(i)); spoil_key(); fs.push_back(f); };
     auto by_ids = [&](const std::string &i, const std::string &j, const std::string &d) { FSpec<K> f; f.kind = "IdsFilter"; f.desc = "IdsFilter(" + d + ")"; f.accept_all = false;
-        f.pred = [i, j](const Model &mm, int v) { return mm.id[v] == i || mm.id[v] == j; }; f.lib = util::IdsFilter<N>(std::vector<std::string>{i, j}); fs.push_back(f); };
+        f.pred = [i, j](const Model &mm, int v) { return mm.id[v] == i || mm.id[v] == j; }; g_keys_scratch.push_back(std::vector<std::string>{i, j}); if (g_keys_scratch.size() > 1024) g_keys_scratch.pop_front();
+        f.lib = util::IdsFilter<N>(g_keys_scratch.back()); for (auto &k : g_keys_scratch.back()) k = "spoiled"; fs.push_back(f); };
     if (!full) { // reduced set for the modification phases ("tb" is the type of the node that gets created)
         by_name("m"); by_type("tb");
         return fs;
